@@ -41,11 +41,20 @@ def _prep(args):
 def prepare_all(specs, backend, nrand, ncyc, seed_tag, cross=False, workers=None):
     workers = workers or min(os.cpu_count() or 4, 16)
     args = [(s, backend, nrand, ncyc, seed_tag, False, None, cross) for s in specs]
-    if len(specs) <= 2:
-        return [_prep(a) for a in args]
+    # everything the workers need is imported once here; every design is then handled by a freshly forked
+    # process, so that no state of the translation passes leaks from one design into the next
+    import pymtl3                                        # noqa: F401
+    import pymtl3.passes.backends.verilog                # noqa: F401
+    import pymtl3.passes.backends.yosys                  # noqa: F401
+    import pymtl3.passes.PassGroups                      # noqa: F401
+    if any(s[0] == "repo" for s in specs):
+        import pymtl3.passes.testcases.test_cases        # noqa: F401
+    if any(s[0] == "stdlib" for s in specs):
+        svcorpus._stdlib_table()
+        svcorpus._examples_table()
     ctx = mp.get_context("fork")
-    with ctx.Pool(workers) as pool:
-        return pool.map(_prep, args, chunksize=max(1, len(args) // (workers * 8)))
+    with ctx.Pool(workers, maxtasksperchild=1) as pool:
+        return pool.map(_prep, args, chunksize=1)
 
 
 def _weight(t):
@@ -177,7 +186,12 @@ def _gen_shape(meta, where):
         if c:
             return c
         return "%s:%s:w%s" % (fam, sig, wm.group(1) if wm else "?")
-    return "%s:%s:%s" % (fam, meta.get("shape", "?"), port)
+    return "%s:%s:%s" % (fam, _shape_key(meta), port)
+
+
+def _shape_key(meta):
+    """struct_k1_w8 -> struct_k1:w8 (the structure first, its width / size parameters last)"""
+    return re.sub(r"_w(\d+)", r":w\1", meta.get("shape", "?"), 1)
 
 
 def _syntax_where(p):
@@ -206,8 +220,15 @@ def run_batch(res, backend, specs, nrand, ncyc, seed_tag, label, cross=False):
         res.count("%s_status_%s" % (label, p["status"]))
         dk, meta = design_key(p)
         if p["status"] == "syntax":
-            res.violation("syntax:%s:%s:%s" % (backend, dk if meta is None else "gen:" + _gen_shape(meta, _syntax_where(p)),
-                                               re.sub(r"module \w+: ", "", _norm(p["info"]))[:100]),
+            msg = re.sub(r"module \w+: ", "", _norm(p["info"]))[:100]
+            if meta is None:
+                skey = dk
+            elif re.search(r"line \d+", p["info"]):
+                skey = "gen:" + _gen_shape(meta, _syntax_where(p))
+            else:       # name resolution / type errors carry no line: family + message with the names abstracted
+                skey = "gen"
+                msg = re.sub(r"'__\w+'", "'__<member>'", re.sub(r"select \.\w+", "select .<member>", msg))
+            res.violation("syntax:%s:%s:%s" % (backend, skey, msg),
                           "%s back end: the text emitted for %s is not valid: %s" % (backend, p.get("name"), p["info"]),
                           {"spec": list(p["spec"][:2]), "text": p.get("text", "")[-3000:]})
             res.count("programs")
@@ -259,7 +280,7 @@ def run_batch(res, backend, specs, nrand, ncyc, seed_tag, label, cross=False):
         err, pos = v
         name = p["name"]
         dk, meta = design_key(p)
-        full = dk if meta is None else "%s:%s" % (dk, meta.get("shape"))
+        full = dk if meta is None else "%s:%s" % (dk, _shape_key(meta))
         if t["mode"] == "drv":
             nprog += 1
             r = info.get("R", (0, 0, 0))
@@ -393,42 +414,50 @@ def _strip(t):
     return {"d": t["d"], "mode": t["mode"], "ev": t["ev"], "w": t.get("w", 1)}
 
 
-def _portmap_canary(t, R):
-    """A copy of trace t with the port map corrupted observably: two sibling struct fields of equal width
-    swapped in the type of an output port, or two elements of a list (field or port array) exchanged.
-    None if t has no such port."""
+def _groups(shape, lo=0):
+    """every composite node of a shape: (kind, spans of its children), recursively"""
+    if shape["k"] == "leaf":
+        return
+    sp = _spans(shape, lo)
+    yield shape["k"], sp
+    kids = [f["t"] for f in shape["fs"]] if shape["k"] == "struct" else [shape["t"]] * shape["n"]
+    for (n, klo, kw), kt in zip(sp, kids):
+        for g in _groups(kt, klo):
+            yield g
+
+
+def _portmap_canary(t, R, want):
+    """A copy of trace t whose port map is corrupted observably: two sibling struct fields of equal width
+    (want = "struct") or two elements of a list inside a struct port (want = "list") exchange their
+    positions - expressed on the recorded packed value, which is what a swapped / reversed map does to the
+    value every leaf is compared with.  None if t has no such port with differing values."""
     cands = []
     for ei, e in enumerate(t["ev"]):
         for lst in ("outc", "outt"):
             for pi, ent in enumerate(e[lst]):
-                ty = ent["ty"]
-                if ty["k"] == "leaf":
+                if ent["ty"]["k"] == "leaf":
                     continue
-                sp = _spans(ty)
-                for a in range(len(sp)):
-                    for b in range(a + 1, len(sp)):
-                        if sp[a][2] != sp[b][2]:
-                            continue
-                        va = ent["v"][sp[a][1]:sp[a][1] + sp[a][2]]
-                        vb = ent["v"][sp[b][1]:sp[b][1] + sp[b][2]]
-                        if va != vb:
-                            cands.append((ei, lst, pi, a, b, ty["k"]))
+                for kind, sp in _groups(ent["ty"]):
+                    if kind != want:
+                        continue
+                    for a in range(len(sp)):
+                        for b in range(a + 1, len(sp)):
+                            if sp[a][2] != sp[b][2]:
+                                continue
+                            va = ent["v"][sp[a][1]:sp[a][1] + sp[a][2]]
+                            vb = ent["v"][sp[b][1]:sp[b][1] + sp[b][2]]
+                            if va != vb:
+                                cands.append((ei, lst, pi, sp[a], sp[b]))
     if not cands:
-        return None, None
-    ei, lst, pi, a, b, kind = R.choice(cands)
+        return None
+    ei, lst, pi, A, B = R.choice(cands)
     c = copy.deepcopy(_strip(t))
-    ent = c["ev"][ei][lst][pi]
-    sp = _spans(ent["ty"])
-    if kind == "struct" and ent["ty"]["fs"][a]["t"] == ent["ty"]["fs"][b]["t"]:
-        fs = ent["ty"]["fs"]
-        fs[a], fs[b] = fs[b], fs[a]              # swapped struct fields in the port map
-        return c, "swapped-struct-fields"
-    v = ent["v"]
-    va = v[sp[a][1]:sp[a][1] + sp[a][2]]
-    vb = v[sp[b][1]:sp[b][1] + sp[b][2]]
-    v[sp[a][1]:sp[a][1] + sp[a][2]] = vb         # same effect as exchanging the two positions in the map
-    v[sp[b][1]:sp[b][1] + sp[b][2]] = va
-    return c, "reversed-array-index" if kind == "list" else "swapped-struct-fields"
+    v = c["ev"][ei][lst][pi]["v"]
+    va = v[A[1]:A[1] + A[2]]
+    vb = v[B[1]:B[1] + B[2]]
+    v[A[1]:A[1] + A[2]] = vb
+    v[B[1]:B[1] + B[2]] = va
+    return c
 
 
 def _array_canary(t, R):
@@ -519,12 +548,13 @@ def canaries(res, batches, R, n=12, portmap=False):
         for t in good:
             if t.get("w", 1) * len(t["ev"]) > 40000:
                 continue
-            if npm["swapped-struct-fields"] < 3 or npm["reversed-array-index"] < 3:
-                c, kd = _portmap_canary(t, R)
-                if c is not None and npm[kd] < 3:
-                    can.append(c)
-                    kinds.append(kd)
-                    npm[kd] += 1
+            for kd, want in (("swapped-struct-fields", "struct"), ("reversed-array-index", "list")):
+                if npm[kd] < 3:
+                    c = _portmap_canary(t, R, want)
+                    if c is not None:
+                        can.append(c)
+                        kinds.append(kd)
+                        npm[kd] += 1
             if npm["exchanged-port-array-elements"] < 3:
                 c = _array_canary(t, R)
                 if c is not None:
